@@ -233,6 +233,7 @@ class Interp:
         self.unit_checks = []
         self.lost = []           # statements that are calls made for their effect and that the interpretation could not model
         self.axis_len = {}       # axis label -> length, where the configuration being analysed fixes it (set by hooks)
+        self.flow_taint = []     # opaque conditions that hold for the rest of the run once a data-dependent exit was not modelled
         self.assume = []         # (condition, truth): data-dependent conditions decided by the caller (one run per case; the caller merges the results)
         self.forked = []         # conditions of the data-dependent ifs that were executed on both arms
         self.conds = []          # conditions of the data-dependent branches being executed (a side effect recorded by a hook happens under their product)
@@ -327,6 +328,20 @@ class Interp:
                     self._poison_block(body[k + 1:], env, Unk('control flow after a conditional continue', st))
                     return None
                 merge_env(env, e_skip, e_go, skip, st)
+                return None
+            if sig is not None and sig[0] == 'bguard':
+                _, cbrk, e_brk, e_go = sig
+                self.conds.append(alg.b_not(cbrk))
+                try:
+                    rest = self.block(body[k + 1:], e_go, mod)
+                finally:
+                    self.conds.pop()
+                if rest is None or rest[0] == 'continue':
+                    return ('bguard', cbrk, e_brk, e_go)              # the loop goes on, under (not cbrk), on the environment of the arm that stayed
+                self._poison_block(body[k + 1:], env, Unk('control flow after a conditional break', st))
+                self._unknown_conds = getattr(self, '_unknown_conds', 0) + 1
+                self.flow_taint.append(alg.mk_ind('true', alg.sym('undecided-flow#%d' % self._unknown_conds)))
+                env['__tainted__'] = Unk('control flow after a data-dependent break is not modelled', st)
                 return None
             if sig is not None and sig[0] == 'rguard':
                 _, cret, val, e_ret, e_go = sig
@@ -489,24 +504,55 @@ class Interp:
             return sig
         if isinstance(st, ast.While):
             # a loop whose test is concrete on every iteration (typically `while True` left by break / return / an exception): unrolled, bounded
+            pending = []            # data-dependent breaks met so far: (condition, environment at the break, environment the loop was running on)
+            cur = env
+
+            def unwind(cur):
+                # leave the loop: the state is that of the break for each pending condition, else what the later iterations made of it
+                for c_, e_brk_, outer_ in reversed(pending):
+                    self.conds.pop()
+                    merge_env(outer_, e_brk_, cur, c_, st)
+                    cur = outer_
+                del pending[:]
             for _ in range(64):
-                dec = self.hooks.decide(self, st.test, env, mod)
+                dec = self.hooks.decide(self, st.test, cur, mod)
                 if dec is None:
-                    dec = self._truth(self.expr(st.test, env, mod))
+                    dec = self._truth(self.expr(st.test, cur, mod))
                 if dec is None:
+                    unwind(cur)
                     u_ = Unk('while loop with a test the analysis cannot decide', st)
                     self._poison(st, env, u_)
                     env['__tainted__'] = u_          # whatever the function returns (or yields) after this point is not known
                     return None
                 if not dec:
+                    unwind(cur)
                     return self.block(st.orelse, env, mod) if st.orelse else None
-                sig = self.block(st.body, env, mod)
+                try:
+                    sig = self.block(st.body, cur, mod)
+                except BaseException:
+                    for _p in pending:
+                        self.conds.pop()
+                    raise
                 if sig:
+                    if sig[0] == 'bguard':
+                        _, c_, e_brk_, e_go_ = sig
+                        pending.append((c_, e_brk_, cur))
+                        self.conds.append(alg.b_not(c_))
+                        cur = e_go_
+                        continue
                     if sig[0] == 'break':
+                        unwind(cur)
                         return None
                     if sig[0] == 'continue':
                         continue
+                    if pending:
+                        unwind(cur)
+                        u_ = Unk('a loop left by %s after a data-dependent break' % sig[0], st)
+                        self._poison(st, env, u_)
+                        env['__tainted__'] = u_
+                        return None
                     return sig
+            unwind(cur)
             u_ = Unk('while loop did not terminate within 64 iterations although every test was decided', st, definite=True)
             self._poison(st, env, u_)
             env['__tainted__'] = u_
@@ -592,6 +638,11 @@ class Interp:
                 skip = tv.poly if s1 else alg.b_not(tv.poly)
                 taken, other = (e1, e2) if s1 else (e2, e1)
                 return ('guard', skip, taken, other)
+            # `if c: break` (or the mirror image) in a loop that is unrolled: the rest of the body and the later iterations run under (not c)
+            if (s1 and s1[0] == 'break' and s2 is None) or (s2 and s2[0] == 'break' and s1 is None):
+                cbrk = tv.poly if s1 else alg.b_not(tv.poly)
+                e_brk, e_go = (e1, e2) if s1 else (e2, e1)
+                return ('bguard', cbrk, e_brk, e_go)
             # `if c: return X` (or the mirror image): the rest of the function runs under (not c) and its result is selected by c
             if (s1 and s1[0] == 'return' and s2 is None) or (s2 and s2[0] == 'return' and s1 is None):
                 cret = tv.poly if s1 else alg.b_not(tv.poly)
@@ -599,6 +650,11 @@ class Interp:
                 e_ret, e_go = (e1, e2) if s1 else (e2, e1)
                 return ('rguard', cret, val, e_ret, e_go)
             self._poison(st, env, Unk('branches of a data-dependent if end differently', st))
+            # one arm leaves the loop / function and the other goes on, under a condition only known at run time: whether anything after this point happens
+            # is not modelled, so every effect recorded from here on carries an opaque condition and the value returned is unknown
+            self._unknown_conds = getattr(self, '_unknown_conds', 0) + 1
+            self.flow_taint.append(alg.mk_ind('true', alg.sym('undecided-flow#%d' % self._unknown_conds)))
+            env['__tainted__'] = Unk('control flow after a data-dependent %s is not modelled' % ('break' if 'break' in (s1 and s1[0], s2 and s2[0]) else 'exit'), st)
             return None
         # unknown condition: everything assigned in either branch is unknown
         e1, e2 = fork(env), fork(env)
@@ -648,16 +704,34 @@ class Interp:
         gen = self._generic_iter(itv, st)
         if gen is not None:
             if isinstance(gen, list):          # concrete unrolling
-                for v in gen:
-                    self.store(st.target, v, env, mod)
-                    sig = self.block(st.body, env, mod)
-                    if sig:
-                        if sig[0] == 'break':
-                            break
-                        if sig[0] == 'continue':
-                            continue
-                        return sig
-                return None
+                pending, cur = [], env
+                try:
+                    for v in gen:
+                        self.store(st.target, v, cur, mod)
+                        sig = self.block(st.body, cur, mod)
+                        if sig:
+                            if sig[0] == 'bguard':
+                                _, c_, e_brk_, e_go_ = sig
+                                pending.append((c_, e_brk_, cur))
+                                self.conds.append(alg.b_not(c_))
+                                cur = e_go_
+                                continue
+                            if sig[0] == 'break':
+                                break
+                            if sig[0] == 'continue':
+                                continue
+                            if pending:
+                                u_ = Unk('a loop left by %s after a data-dependent break' % sig[0], st)
+                                self._poison(st, env, u_)
+                                env['__tainted__'] = u_
+                                return None
+                            return sig
+                    return None
+                finally:
+                    for c_, e_brk_, outer_ in reversed(pending):
+                        self.conds.pop()
+                        merge_env(outer_, e_brk_, cur, c_, st)
+                        cur = outer_
             self.store(st.target, gen, env, mod)
             sig = self.block(st.body, env, mod)
             return sig if sig and sig[0] in ('return', 'raise') else None
@@ -1062,6 +1136,8 @@ class Interp:
     def path_cond(self):
         c = Poly.const(1)
         for x in self.conds:
+            c = c * x
+        for x in self.flow_taint:
             c = c * x
         return c
 
@@ -2472,6 +2548,8 @@ class Interp:
             return 'str' in names
         if isinstance(v, (list, tuple)):
             return bool({'list', 'tuple'} & set(names))
+        if isinstance(v, Foreign) and set(names) <= {'str', 'int', 'float', 'bool', 'list', 'tuple', 'dict', 'bytes', 'NoneType', 'ndarray', 'Quantity'}:
+            return False          # a modelled library object is none of the plain data types
         if isinstance(v, Arr):
             if 'Quantity' in names and len(names) == 1:
                 if v.unit is None:
